@@ -36,7 +36,9 @@ def loadOne (w : World) (relpath : Str) (verifyEntry : Option Entry) : Except Er
   | some .notdir => throw (.os .ENOTDIR)
   | some (.fault k) => throw (.os (.code k))
   | some (.dir _ _ _) => throw (.os .EISDIR)
-  | some (.special _) => throw .abstain
+  -- with an entry to verify against the type mismatch was reported above; without one (update, create, the top-level
+  -- Manifest) the type is looked at before the open (repair of finding F20: a named pipe blocked for good)
+  | some (.special _) => throw (.invalidPath relpath)
   | some (.file m) =>
     match m.manifest with
     | none => throw .abstain
